@@ -232,6 +232,17 @@ theorem mem_ballotCands_lift {w : Cand} {i : Nat} {b : Ballot} {c : Cand} :
 
 /-! ### the effect of a lift on place-based scores -/
 
+theorem anti_le_of {S : Nat → Nat → Rat} (hanti : ∀ n j, j + 1 < n → S n (j + 1) ≤ S n j) {n i r : Nat}
+    (hir : i ≤ r) (hr : r < n) : S n r ≤ S n i := by
+  induction r with
+  | zero => have : i = 0 := by omega
+            subst this; exact le_refl _
+  | succ r ih =>
+    rcases Nat.eq_or_lt_of_le hir with rfl | hlt
+    · exact le_refl _
+    · exact le_trans (hanti n r hr) (ih (by omega) (by omega))
+
+
 /-- a family of score sequences (`S n j` = worth of place `j` on a ballot with `n` places) under which lifting a
     candidate never helps anybody else more than the lifted one:
     non-increasing, non-negative, and — when a ballot grows by one place (up to `N` places, the number of
@@ -282,11 +293,19 @@ theorem not_mem_strip (w : Cand) (b : Ballot) : w ∉ ballotCands (strip w b) :=
 theorem nodup_strip {w : Cand} {b : Ballot} (h : (ballotCands b).Nodup) : (ballotCands (strip w b)).Nodup := by
   rw [ballotCands_strip]; exact h.sublist List.filter_sublist
 
-/-- **Per-ballot effect of a lift.**  On a ballot with distinct candidates, taking `w` out and re-inserting it as a
-    rank of its own not below its old place changes nobody's score by more than it changes `w`'s. -/
-theorem lift_delta {S : Nat → Nat → Rat} {N : Nat} (hS : ScorerMono S N) (w : Cand) (i : Nat) (b : Ballot)
-    (hnd : (ballotCands b).Nodup) (hok : liftOK w i b = true) (hN : (lift w i b).length ≤ N) (y : Cand) (hy : y ≠ w) :
-    bscore S (lift w i b) y - bscore S b y ≤ bscore S (lift w i b) w - bscore S b w := by
+/-- **Per-ballot effect of a lift**, general form: nobody but `w` gains more than a bonus `c'` (which is 0 when
+    the ballot keeps its length and `c` when it grows by one place), and `w` gains at least `c'`. -/
+theorem lift_delta_gen {S : Nat → Nat → Rat} (hanti : ∀ n j, j + 1 < n → S n (j + 1) ≤ S n j)
+    (w : Cand) (i : Nat) (b : Ballot) (hnd : (ballotCands b).Nodup) (hok : liftOK w i b = true)
+    (c : Rat) (hc0 : 0 ≤ c)
+    (hg : (lift w i b).length = b.length + 1 →
+      (∀ j, j < b.length → S (b.length + 1) j ≤ S b.length j + c) ∧
+      (∀ j, j < b.length → S (b.length + 1) (j + 1) ≤ S b.length j) ∧
+      (∀ i r, i ≤ r → r < b.length → S b.length r + c ≤ S (b.length + 1) i) ∧
+      (∀ i, i ≤ b.length → c ≤ S (b.length + 1) i))
+    (y : Cand) (hy : y ≠ w) :
+    ∃ c', 0 ≤ c' ∧ (c' = 0 ∨ c' = c) ∧ bscore S (lift w i b) y ≤ bscore S b y + c' ∧
+      bscore S b w + c' ≤ bscore S (lift w i b) w := by
   have hnds := nodup_strip (w := w) hnd
   have hws := not_mem_strip w b
   have cy : cnt [w] y = 0 := cnt_eq_zero (by simp [hy])
@@ -298,11 +317,8 @@ theorem lift_delta {S : Nat → Nat → Rat} {N : Nat} (hS : ScorerMono S N) (w 
     simp only [decide_eq_true_eq] at hok
     have hs : strip w b = b := strip_of_not_mem hwb
     have hi : i ≤ (strip w b).length := by rw [hs]; exact hok
-    obtain ⟨c, hc0, hc1, hc2, _, hc4⟩ := hS.grow b.length (by rw [lift_length w i b hi, hs] at hN; omega)
-    rw [bscore_lift S w i b hi y, bscore_lift S w i b hi w, cy, cw, hs,
-      rankScore_eq_zero _ 0 b w hwb]
+    obtain ⟨hc1, hc2, _, hc4⟩ := hg (by rw [lift_length w i b hi, hs])
     have hbw : bscore S b w = 0 := rankScore_eq_zero _ 0 b w hwb
-    rw [hbw]
     have hle : rankScore (skip (S (b.length + 1)) i) 0 b y ≤ rankScore (S b.length) 0 b y + c := by
       apply rankScore_le _ _ c hc0 0 0 b y hnd
       intro j hj
@@ -310,9 +326,10 @@ theorem lift_delta {S : Nat → Nat → Rat} {N : Nat} (hS : ScorerMono S N) (w 
       split
       · exact hc1 j hj
       · have := hc2 j hj; linarith
-    have := hc4 i hok
-    unfold bscore
-    linarith
+    have h4 := hc4 i hok
+    refine ⟨c, hc0, Or.inr rfl, ?_, ?_⟩
+    · rw [bscore_lift S w i b hi y, cy, hs]; unfold bscore; linarith
+    · rw [bscore_lift S w i b hi w, cw, hs, rankScore_eq_zero _ 0 b w hwb, hbw]; linarith
   · rw [hpos] at hok
     simp only [decide_eq_true_eq] at hok
     have hwb2 : w ∉ ballotCands b₂ := by
@@ -347,10 +364,8 @@ theorem lift_delta {S : Nat → Nat → Rat} {N : Nat} (hS : ScorerMono S N) (w 
         conv_lhs => rw [hb']
         rw [rankScore_insert _ _ _ (by simp) it k]
         rw [← hb']
-      rw [bscore_lift S w i b hi y, bscore_lift S w i b hi w, cy, cw, eby y, eby w, cyit, cwit]
-      rw [show strip w b = b₁ ++ b₂ by rw [hb]; exact hstrip] at hnds hws ⊢
-      rw [← hlen]
-      rw [rankScore_eq_zero _ 0 (b₁ ++ b₂) w hws, rankScore_eq_zero _ 0 (b₁ ++ b₂) w hws]
+      have hsb : strip w b = b₁ ++ b₂ := by rw [hb]; exact hstrip
+      rw [hsb] at hnds hws
       have hle : rankScore (skip (S b.length) i) 0 (b₁ ++ b₂) y
           ≤ rankScore (skip (S b.length) b₁.length) 0 (b₁ ++ b₂) y + 0 := by
         apply rankScore_le _ _ 0 (le_refl _) 0 0 _ y hnds
@@ -360,10 +375,14 @@ theorem lift_delta {S : Nat → Nat → Rat} {N : Nat} (hS : ScorerMono S N) (w 
         · rw [if_pos h1, if_pos (by omega)]
         · rw [if_neg h1]
           by_cases h2 : j < b₁.length
-          · rw [if_pos h2]; exact hS.anti _ j (by omega)
+          · rw [if_pos h2]; exact hanti _ j (by omega)
           · rw [if_neg h2]
-      have := hS.anti_le hok hr
-      linarith
+      have h5 := anti_le_of hanti hok hr
+      refine ⟨0, le_refl _, Or.inl rfl, ?_, ?_⟩
+      · rw [bscore_lift S w i b hi y, cy, eby y, cyit, hsb, ← hlen]; linarith
+      · rw [bscore_lift S w i b hi w, cw, eby w, cwit, hsb, ← hlen,
+          rankScore_eq_zero _ 0 (b₁ ++ b₂) w hws, rankScore_eq_zero _ 0 (b₁ ++ b₂) w hws]
+        linarith
     | some it' =>
       -- w shared its place: the ballot grows by one place
       rw [hsi] at hstrip hcands
@@ -374,7 +393,7 @@ theorem lift_delta {S : Nat → Nat → Rat} {N : Nat} (hS : ScorerMono S N) (w 
       have hslen : (strip w b).length = b.length := by rw [hs, hb]; simp
       have hi : i ≤ (strip w b).length := by rw [hs]; simp; omega
       have hr : b₁.length < b.length := by rw [hb]; simp
-      obtain ⟨c, hc0, hc1, hc2, hc3, _⟩ := hS.grow b.length (by rw [lift_length w i b hi, hslen] at hN; omega)
+      obtain ⟨hc1, hc2, hc3, _⟩ := hg (by rw [lift_length w i b hi, hslen])
       have ey : bscore S b y = rankScore (S b.length) 0 (strip w b) y := by
         unfold bscore
         rw [hs]
@@ -384,8 +403,6 @@ theorem lift_delta {S : Nat → Nat → Rat} {N : Nat} (hS : ScorerMono S N) (w 
         unfold bscore
         generalize hf : S b.length = f
         rw [hb, rankScore_mid, hR1, hR2, cwit]; ring
-      rw [bscore_lift S w i b hi y, bscore_lift S w i b hi w, cy, cw, ey, ew, hslen,
-        rankScore_eq_zero _ 0 (strip w b) w hws]
       have hle : rankScore (skip (S (b.length + 1)) i) 0 (strip w b) y
           ≤ rankScore (S b.length) 0 (strip w b) y + c := by
         apply rankScore_le _ _ c hc0 0 0 _ y hnds
@@ -395,8 +412,22 @@ theorem lift_delta {S : Nat → Nat → Rat} {N : Nat} (hS : ScorerMono S N) (w 
         split
         · exact hc1 j hj
         · have := hc2 j hj; linarith
-      have := hc3 i b₁.length hok hr
-      linarith
+      have h3 := hc3 i b₁.length hok hr
+      refine ⟨c, hc0, Or.inr rfl, ?_, ?_⟩
+      · rw [bscore_lift S w i b hi y, cy, ey, hslen]; linarith
+      · rw [bscore_lift S w i b hi w, cw, ew, hslen, rankScore_eq_zero _ 0 (strip w b) w hws]; linarith
+
+/-- **Per-ballot effect of a lift.**  On a ballot with distinct candidates, taking `w` out and re-inserting it as a
+    rank of its own not below its old place changes nobody's score by more than it changes `w`'s. -/
+theorem lift_delta {S : Nat → Nat → Rat} {N : Nat} (hS : ScorerMono S N) (w : Cand) (i : Nat) (b : Ballot)
+    (hnd : (ballotCands b).Nodup) (hok : liftOK w i b = true) (hN : (lift w i b).length ≤ N) (y : Cand) (hy : y ≠ w) :
+    bscore S (lift w i b) y - bscore S b y ≤ bscore S (lift w i b) w - bscore S b w := by
+  by_cases hgrown : (lift w i b).length = b.length + 1
+  · obtain ⟨c, hc0, h1, h2, h3, h4⟩ := hS.grow b.length (by omega)
+    obtain ⟨c', _, _, hy', hw'⟩ := lift_delta_gen hS.anti w i b hnd hok c hc0 (fun _ => ⟨h1, h2, h3, h4⟩) y hy
+    linarith
+  · obtain ⟨c', _, _, hy', hw'⟩ := lift_delta_gen hS.anti w i b hnd hok 0 (le_refl _) (fun h => absurd h hgrown) y hy
+    linarith
 
 theorem rankScore_zero_fn (r : Nat) (l : Ballot) (k : Cand) : rankScore (fun _ => (0 : Rat)) r l k = 0 := by
   induction l generalizing r with
